@@ -261,7 +261,7 @@ def orderedValues : List α → Nat → List α
   | [], _ => []
   | p :: rest, i =>
     let vs := orderedValues rest (i + 1)
-    let x := (match vs with | [] => zero | v :: _ => v) + p / ofInt i
+    let x := vs.headD zero + p / ofInt i      -- x of the previous iteration (0 at the start)
     x :: vs
 
 /-- :303-308  `vprob[i] = (i+1) * (v[i] - v[i+1])`,  `vprob[dim-1] = dim * v[dim-1]` -/
